@@ -2,10 +2,10 @@ package main
 
 import (
 	"encoding/json"
-	"os/exec"
 	"flag"
 	"fmt"
 	"os"
+	"os/exec"
 	"path/filepath"
 	"sort"
 	"strconv"
@@ -18,14 +18,23 @@ import (
 )
 
 type PropCfg struct {
-	Module           string   `json:"module"` // directory of the Go module relative to the repo root ("" = root)
-	Packages         []string `json:"packages"`
-	Title            string   `json:"title"`
-	NotMachineChecked []string `json:"not_machine_checked"`
-	NotCovered       []string `json:"not_covered"`
-	Assumptions      []string `json:"assumptions"`
-	Bounded          []BoundedCfg `json:"bounded"`
-	MinObligations   int      `json:"min_obligations"`
+	Module            string       `json:"module"` // directory of the Go module relative to the repo root ("" = root)
+	Packages          []string     `json:"packages"`
+	Title             string       `json:"title"`
+	NotMachineChecked []string     `json:"not_machine_checked"`
+	NotCovered        []string     `json:"not_covered"`
+	Assumptions       []string     `json:"assumptions"`
+	Bounded           []BoundedCfg `json:"bounded"`
+	MinObligations    int          `json:"min_obligations"`
+	Modules           []ModCfg     `json:"modules"`        // several Go modules checked under one property (adapters)
+	SharedSpecs       []string     `json:"shared_specs"`   // files under /verif/contracts loaded for every module
+	ExternalCalls     string       `json:"external_calls"` // "preserve-ghosts": see Engine.externalEffect
+	Skipped           []string     `json:"skipped"`        // modules that cannot be loaded here, with the reason
+}
+
+type ModCfg struct {
+	Module   string   `json:"module"`
+	Packages []string `json:"packages"`
 }
 
 type BoundedCfg struct {
@@ -69,8 +78,13 @@ func loadProgram(repo, module string, patterns []string) (*ssa.Program, []*packa
 	return prog, pkgs
 }
 
-func loadSpecs(db *SpecDB, pkgs []*packages.Package, repo, verif string) []string {
+func loadSpecs(db *SpecDB, pkgs []*packages.Package, repo, verif string, shared []string) []string {
 	var used []string
+	for _, sh := range shared {
+		f := filepath.Join(verif, "contracts", sh)
+		must(db.loadFile(f, ""))
+		used = append(used, f)
+	}
 	// package-independent mathematical spec functions (no contract about code)
 	if pre := filepath.Join(verif, "contracts", "prelude.spec"); fileExists(pre) {
 		must(db.loadFile(pre, ""))
@@ -97,6 +111,17 @@ func loadSpecs(db *SpecDB, pkgs []*packages.Package, repo, verif string) []strin
 		used = append(used, f)
 	}
 	return used
+}
+
+var gExtCalls map[string]int
+
+func contains(l []string, s string) bool {
+	for _, e := range l {
+		if e == s {
+			return true
+		}
+	}
+	return false
 }
 
 func hasProp(ps []string, id string) bool {
@@ -142,13 +167,10 @@ func main() {
 	if pc == nil {
 		must(fmt.Errorf("unknown property %q", *prop))
 	}
-	prog, pkgs := loadProgram(*repo, pc.Module, pc.Packages)
-	db := newSpecDB()
-	specFiles := loadSpecs(db, pkgs, *repo, *verif)
-	x := newEngine(prog, db)
-	x.indexFunctions()
-	loadS := time.Since(t0).Seconds()
-
+	mods := pc.Modules
+	if len(mods) == 0 {
+		mods = []ModCfg{{pc.Module, pc.Packages}}
+	}
 	scratch := *outDir
 	if scratch == "" {
 		base := os.Getenv("TMPDIR")
@@ -163,47 +185,80 @@ func main() {
 	} else {
 		os.MkdirAll(scratch, 0o755)
 	}
-
 	var reps []*FuncReport
-	for _, key := range db.Order {
-		fsp := db.Funcs[key]
-		if !hasProp(fsp.Props, *prop) || fsp.IsIface || fsp.Assumed {
-			continue
+	var specFiles []string
+	var x *Engine
+	loadS := 0.0
+	extCalls := map[string]int{}
+	for mi, mc := range mods {
+		tl := time.Now()
+		prog, pkgs := loadProgram(*repo, mc.Module, mc.Packages)
+		db := newSpecDB()
+		for _, f := range loadSpecs(db, pkgs, *repo, *verif, pc.SharedSpecs) {
+			if !contains(specFiles, f) {
+				specFiles = append(specFiles, f)
+			}
 		}
-		if *fnKey != "" && !strings.Contains(key, *fnKey) {
-			continue
+		x = newEngine(prog, db)
+		x.extPolicy = pc.ExternalCalls
+		x.initialPkgs = map[string]bool{}
+		for _, p := range pkgs {
+			x.initialPkgs[p.PkgPath] = true
 		}
-		cases := []*Clause{nil}
-		if len(fsp.Cases) > 0 {
-			cases = fsp.Cases
+		x.indexFunctions()
+		x.instantiateAutos(pkgs)
+		loadS += time.Since(tl).Seconds()
+		for _, key := range db.Order {
+			fsp := db.Funcs[key]
+			if !hasProp(fsp.Props, *prop) || fsp.IsIface || fsp.Assumed {
+				continue
+			}
+			if *fnKey != "" && !strings.Contains(key, *fnKey) {
+				continue
+			}
+			cases := []*Clause{nil}
+			if len(fsp.Cases) > 0 {
+				cases = fsp.Cases
+			}
+			for _, cs := range cases {
+				rep := x.verifyFunc(fsp, cs, *prop)
+				// restrict to obligations of this property
+				var keepO []*Obl
+				for _, o := range rep.Obls {
+					if hasProp(o.Props, *prop) {
+						keepO = append(keepO, o)
+					}
+				}
+				rep.Obls = keepO
+				reps = append(reps, rep)
+			}
 		}
-		for _, cs := range cases {
-			rep := x.verifyFunc(fsp, cs, *prop)
-			// restrict to obligations of this property
-			var keepO []*Obl
-			for _, o := range rep.Obls {
-				if hasProp(o.Props, *prop) {
-					keepO = append(keepO, o)
+		for name := range x.usedLemmas {
+			ok := false
+			for _, l := range db.Lemmas {
+				if l.Name == name && hasProp(l.Props, *prop) {
+					ok = true
 				}
 			}
-			rep.Obls = keepO
-			reps = append(reps, rep)
-		}
-	}
-	for name := range x.usedLemmas {
-		ok := false
-		for _, l := range db.Lemmas {
-			if l.Name == name && hasProp(l.Props, *prop) {
-				ok = true
+			if !ok {
+				must(fmt.Errorf("lemma %s is used by a contract of %s but not proved under that property", name, *prop))
 			}
 		}
-		if !ok {
-			must(fmt.Errorf("lemma %s is used by a contract of %s but not proved under that property", name, *prop))
+		if mi == 0 {
+			lemRep := x.lemmaReport(*prop)
+			if lemRep != nil && *fnKey == "" {
+				reps = append(reps, lemRep)
+			}
+		}
+		for k, v := range x.extCalls {
+			extCalls[k] += v
 		}
 	}
-	lemRep := x.lemmaReport(*prop)
-	if lemRep != nil && *fnKey == "" {
-		reps = append(reps, lemRep)
+	gExtCalls = extCalls
+	if *verbose {
+		for _, l := range extCallList() {
+			fmt.Println("  external:", l)
+		}
 	}
 	genS := time.Since(t0).Seconds() - loadS
 
@@ -240,7 +295,19 @@ func main() {
 	if !*noEvidence && *fnKey == "" {
 		must(writeEvidence(filepath.Join(*verif, "evidence", *prop+".json"), res.evidence))
 	}
+	if *outDir == "" && !*keep {
+		os.RemoveAll(scratch) // os.Exit skips deferred calls
+	}
 	os.Exit(res.exit)
+}
+
+func extCallList() []string {
+	var out []string
+	for k, v := range gExtCalls {
+		out = append(out, fmt.Sprintf("%s x%d", k, v))
+	}
+	sort.Strings(out)
+	return out
 }
 
 func envOr(k, d string) string {
@@ -547,29 +614,31 @@ func summarize(prop, tier string, seed int, pc *PropCfg, reps []*FuncReport, x *
 	}
 	sort.Strings(abstrL)
 	cov := map[string]interface{}{
-		"obligations":              nObl - len(knownHit),
-		"obligations_generated":    nObl,
-		"discharged":               nDis,
-		"checker_cmd":              fmt.Sprintf("vcgo check -prop %s -tier %s (weakest-precondition VCs over go/ssa of %s, discharged by z3-new|z3|cvc5, %ds/query)", prop, tier, repo, timeout),
-		"trusted_base":             []string{"golang.org/x/tools/go/ssa v0.29.0 (SSA construction)", "vcgo VC generator (/verif/vcgo)", "z3 5.1.0", "z3 4.8.12", "cvc5 1.0", "contract files " + strings.Join(relAll(specFiles, repo), ", ")},
-		"samples":                  samples,
-		"functions_under_contract": funcs,
-		"inlined_callees":          inlL,
-		"assumed_contracts":        asL,
-		"abstracted_instructions":  abstrL,
-		"by_solver":                bySolver,
-		"solver_time_ms":           solverMs,
-		"load_s":                   round2(loadS),
-		"vcgen_s":                  round2(genS),
-		"cover_queries":            nCover,
-		"cover_sat":                nCoverOK,
-		"not_machine_checked":      pc.NotMachineChecked,
-		"not_covered":              pc.NotCovered,
-		"bounded":                  pc.Bounded,
-		"known_findings_reported":  knownHit,
-		"undecided":                undecided,
-		"degraded_functions":       degraded,
-		"notes":                    notes,
+		"obligations":                 nObl - len(knownHit),
+		"obligations_generated":       nObl,
+		"discharged":                  nDis,
+		"checker_cmd":                 fmt.Sprintf("vcgo check -prop %s -tier %s (weakest-precondition VCs over go/ssa of %s, discharged by z3-new|z3|cvc5, %ds/query)", prop, tier, repo, timeout),
+		"trusted_base":                []string{"golang.org/x/tools/go/ssa v0.29.0 (SSA construction)", "vcgo VC generator (/verif/vcgo)", "z3 5.1.0", "z3 4.8.12", "cvc5 1.0", "contract files " + strings.Join(relAll(specFiles, repo), ", ")},
+		"samples":                     samples,
+		"functions_under_contract":    funcs,
+		"inlined_callees":             inlL,
+		"assumed_contracts":           asL,
+		"abstracted_instructions":     abstrL,
+		"by_solver":                   bySolver,
+		"solver_time_ms":              solverMs,
+		"load_s":                      round2(loadS),
+		"vcgen_s":                     round2(genS),
+		"cover_queries":               nCover,
+		"cover_sat":                   nCoverOK,
+		"not_machine_checked":         pc.NotMachineChecked,
+		"not_covered":                 pc.NotCovered,
+		"bounded":                     pc.Bounded,
+		"calls_leaving_verified_code": extCallList(),
+		"modules_skipped":             pc.Skipped,
+		"known_findings_reported":     knownHit,
+		"undecided":                   undecided,
+		"degraded_functions":          degraded,
+		"notes":                       notes,
 	}
 	if level == "other" {
 		cov["explanation"] = "some obligations are undecided on this tree (functions outside the verified subset or solver gave no answer); proof claim withdrawn for this run"
